@@ -435,3 +435,74 @@ mut("c17_thread_local_scratch_not_reentrant", "C17", [
 _tls = _threading.local()
 logger = logging.getLogger(__name__)'''),
 ], "a per-THREAD scratch map (thread-safe, so no interleaving shows it): a nested parse on the same thread - the application's log handler parses another chart while a line is being reported - steals the rest of the outer section's lines")
+
+
+# ------------------------------------------------------------ threads and locks made by the library
+mut("c17_two_statistics_locks_taken_in_opposite_orders", "C17", [
+    ("chartparse/chart.py",
+     '''        metadata = Metadata.from_chart_lines(data_sections[Metadata.header_tag])''',
+     '''        with _charts_lock:
+            # parse statistics: charts seen / lines seen (two counters, two locks)
+            _stats["charts"] = _stats.get("charts", 0) + 1
+            metadata = Metadata.from_chart_lines(data_sections[Metadata.header_tag])
+            with _lines_lock:
+                _stats["lines"] = _stats.get("lines", 0) + len(lines)'''),
+    ("chartparse/chart.py",
+     '''                track = InstrumentTrack.from_chart_lines(''',
+     '''                with _lines_lock:
+                    _stats["sections"] = _stats.get("sections", 0) + 1
+                    with _charts_lock:
+                        _stats["tracks_of_chart"] = _stats.get("charts", 0)
+                track = InstrumentTrack.from_chart_lines('''),
+    ("chartparse/chart.py",
+     '''logger = logging.getLogger(__name__)''',
+     '''logger = logging.getLogger(__name__)
+
+import threading as _threading  # noqa: E402
+
+_charts_lock = _threading.Lock()
+_lines_lock = _threading.Lock()
+_stats: dict = {}'''),
+], "two caller threads: one holds the first lock inside the [Song] parse and wants the second, the "
+   "other holds the second in the track loop and wants the first - a lock-order deadlock (found "
+   "because locks the library makes are cooperative and a run in which no thread can proceed is a verdict)")
+
+mut("c17_thread_pool_results_in_completion_order", "C17", [
+    ("chartparse/chart.py",
+     '''        instrument_tracks = InstrumentTrackMap(collections.defaultdict(dict))
+        for header_tag, data_section_lines in data_sections.items():''',
+     '''        import concurrent.futures
+
+        instrument_tracks = InstrumentTrackMap(collections.defaultdict(dict))
+        pending = {}
+        pool = concurrent.futures.ThreadPoolExecutor(max_workers=3, thread_name_prefix="chartparse-track")
+        for header_tag, data_section_lines in data_sections.items():'''),
+    ("chartparse/chart.py",
+     '''                track = InstrumentTrack.from_chart_lines(
+                    instrument,
+                    difficulty,
+                    data_section_lines,
+                    sync_track.bpm_events,
+                )
+                instrument_tracks[instrument][difficulty] = track
+            elif header_tag not in cls._required_header_tags:
+                logger.warning(cls._unhandled_data_section_log_msg_tmpl.format(header_tag))
+''',
+     '''                pending[pool.submit(
+                    InstrumentTrack.from_chart_lines,
+                    instrument,
+                    difficulty,
+                    list(data_section_lines),
+                    sync_track.bpm_events,
+                )] = (instrument, difficulty)
+            elif header_tag not in cls._required_header_tags:
+                logger.warning(cls._unhandled_data_section_log_msg_tmpl.format(header_tag))
+        try:
+            for future in concurrent.futures.as_completed(pending):
+                instrument, difficulty = pending[future]
+                instrument_tracks[instrument][difficulty] = future.result()
+        finally:
+            pool.shutdown(wait=True)
+'''),
+], "threads the library starts itself: the order in which pool workers finish (decided by the "
+   "simulator's schedule) becomes the order of the chart's tracks")
